@@ -119,6 +119,15 @@ def cases(draw, tier):
         if draw(st.integers(0, 3)) == 0:
             step["style"] = "method"
     case = {"spec": spec, "cfg": cfg, "history": hist}
+    if late and draw(st.booleans()):
+        # a second instance of the class that gets the coroutine listener through its constructor (the first one got it late,
+        # or not yet): each instance picks the way it runs callbacks by itself
+        case["sib_late_as_ctor"] = True
+        k = draw(st.integers(0, len(hist)))
+        out = hist[:k] + [{"op": "sibling"}]
+        for step in hist[k:]:
+            out.append(dict(step, target="sib") if draw(st.booleans()) else step)
+        case["history"] = out
     return case
 
 
